@@ -34,7 +34,7 @@ Your job: produce TWO independent, different source changes to jawk (call them {
 A strong randomized test harness already catches ALL of the following earlier changes for this property (and many for the neighbouring properties), so yours must be clearly DIFFERENT from every one of them - a different code site AND a different kind of triggering condition - and {A} and {B} must differ from each other:
 {PRIOR}
 
-From these you can infer what the harness exercises: random values of all JSON types (boundary integers, extreme doubles, astral/control characters, long strings > 64 KiB, > 20-element lists, hundreds of records, many empty collections, numbers spelt with hundreds of digits), all option aliases, spellings and argument orders, stdin/files/nested directories/symlinks/FIFOs with arbitrary read chunking, short and interrupted writes, read/write faults of many error kinds at every offset, all output styles and text options, duplicate selection names, nested scopes, recursion, long runs, patterns/formats/names/selection texts that come from the data, a non-UTF-8 environment variable, `exec`/`trigger` of small commands (children that flood either pipe or outlive the run), file names with commas/blanks/leading dots/non-ASCII, sockets and writer-less FIFOs as inputs, transient (fail-once) write faults, rows far above any buffer size on dead sinks, raw control characters inside strings, malformed/unrepresentable number tokens as noise, expressions nested 64 deep, variadic calls with 13 arguments, sort keys reached through macros/variables/selected columns, `--set` bindings used in every expression option, every option value written in alternative spellings, integers at both ends of the 64-bit ranges and neighbours sharing a double, decimal strings with exponents up to 1000, un-named and duplicate-named selections, limits (0 included) in every pipeline, a terminal on stdin, symbolic links, empty directories, locked and very large input files (bytes read are metered), transient read faults, byte-order marks, member-permuted objects as sort keys and as neighbouring rows, zero in every spelling, NaN/inf results fed to every sorting function, member names outside ASCII, regexes with counted Unicode classes, column names with backslashes and sigils, user variables named like the frame members of fold/indexed/entries, a variable and a macro sharing a name, `--set` values and stage options that mention other `--set` names, error reports counted per noise region, integers written as doubles, hundreds of input files under a low descriptor limit, file names that are not UTF-8, files whose read fails, the same file named twice, stdin positioned behind a header, text typed after Ctrl-D, silent attached FIFO writers, dozens of distinct formats/patterns per run (cache churn) and patterns that collide under common 32-bit hashes, malformed JSON literals inside expressions, foreign literals (True/None/NaN) as noise, huge limits in front of every stage, operands around 2^127. Think hard about what such a harness would STILL miss, e.g.: a condition on the *combination* of two rarely combined features; a value that is special only to one function; an effect visible only in one output column position or only for the last/first row or only when the output is empty; an effect depending on the *number* of arguments of a variadic function; state that survives from one record/file/option to the next; rarely used functions (look at the full function list in the help) and rarely used options; behaviour at exactly 2^53, 2^63, 2^64; interplay of --skip/--take/--unique/--sort-by/--group-by with files and directories; error *messages* if the property covers them. Prefer source files not listed above.
+From these you can infer what the harness exercises: random values of all JSON types (boundary integers, extreme doubles, astral/control characters, long strings > 64 KiB, > 20-element lists, hundreds of records, many empty collections, numbers spelt with hundreds of digits), all option aliases, spellings and argument orders, stdin/files/nested directories/symlinks/FIFOs with arbitrary read chunking, short and interrupted writes, read/write faults of many error kinds at every offset, all output styles and text options, duplicate selection names, nested scopes, recursion, long runs, patterns/formats/names/selection texts that come from the data, a non-UTF-8 environment variable, `exec`/`trigger` of small commands (children that flood either pipe or outlive the run), file names with commas/blanks/leading dots/non-ASCII, sockets and writer-less FIFOs as inputs, transient (fail-once) write faults, rows far above any buffer size on dead sinks, raw control characters inside strings, malformed/unrepresentable number tokens as noise, expressions nested 64 deep, variadic calls with 13 arguments, sort keys reached through macros/variables/selected columns, `--set` bindings used in every expression option, every option value written in alternative spellings, integers at both ends of the 64-bit ranges and neighbours sharing a double, decimal strings with exponents up to 1000, un-named and duplicate-named selections, limits (0 included) in every pipeline, a terminal on stdin, symbolic links, empty directories, locked and very large input files (bytes read are metered), transient read faults, byte-order marks, member-permuted objects as sort keys and as neighbouring rows, zero in every spelling, NaN/inf results fed to every sorting function, member names outside ASCII, regexes with counted Unicode classes, column names with backslashes and sigils, user variables named like the frame members of fold/indexed/entries, a variable and a macro sharing a name, `--set` values and stage options that mention other `--set` names, error reports counted per noise region, integers written as doubles, hundreds of input files under a low descriptor limit, file names that are not UTF-8, files whose read fails, the same file named twice, stdin positioned behind a header, text typed after Ctrl-D, silent attached FIFO writers, dozens of distinct formats/patterns per run (cache churn) and patterns that collide under common 32-bit hashes, malformed JSON literals inside expressions, foreign literals (True/None/NaN) as noise, huge limits in front of every stage, operands around 2^127, every documented function called with 0-4 boundary arguments, nested set/define scopes entered for some records only, commands that fail to start, hundreds of malformed arrays/objects before the values, NUL runs and strings that are not UTF-8 as noise, literals next to .5 and 2^52, every spelling of zero (-0, -0.0, 0e0), member names ending in asc/desc, cut-off final values, directories (also one-file, nested, linked, named twice) among the file arguments, a terminal on stderr, a producer that goes quiet behind the last wanted value, input context read behind --skip and sorters, empty escape sequences, number-as-string sorts with a hundred keys. Think hard about what such a harness would STILL miss, e.g.: a condition on the *combination* of two rarely combined features; a value that is special only to one function; an effect visible only in one output column position or only for the last/first row or only when the output is empty; an effect depending on the *number* of arguments of a variadic function; state that survives from one record/file/option to the next; rarely used functions (look at the full function list in the help) and rarely used options; behaviour at exactly 2^53, 2^63, 2^64; interplay of --skip/--take/--unique/--sort-by/--group-by with files and directories; error *messages* if the property covers them. Prefer source files not listed above.
 
 First read the top-level layout, README/docs and the source files relevant to the property to understand how the behaviour is implemented. Then craft each change.
 
